@@ -109,7 +109,7 @@ pub fn run(tier: &str) -> i32 {
         let full_len = std::fs::metadata(&j).map(|m| m.len()).unwrap_or(0);
         let jname = j.file_name().unwrap().to_string_lossy().into_owned();
         drop(w); // clean close of the original (the image was taken before)
-        prepared.push(Prepared { img, hist: History { cfg: sh.cfg.clone(), ops, states }, offs, full_len, jname });
+        prepared.push(Prepared { img, hist: History { cfg: sh.cfg.clone(), ops, states, sync_fence: vec![], buffer_fence: vec![] }, offs, full_len, jname });
     }
 
     // Phase 2: jobs = every byte offset x {EOF, zero padded}
